@@ -103,6 +103,39 @@ TABLE.update({
              "close that only drops the reference is invisible; TdmsFile.open() itself raising is outside the statement."),
 })
 
+TABLE.update({
+    'C07': dict(
+        technique="property-based testing (round trip): Hypothesis write programs (sessions, append mode, all data forms and "
+                  "property value kinds) -> TdmsWriter -> TdmsFile.read against a dictionary model; property type codes via "
+                  "an independent parser",
+        text="Thousands (quick) to >10^5 (thorough) generated write programs are executed and read back; every channel must "
+             "be the concatenation of what was written (dtype and bits for arrays, values for lists, exact microseconds for "
+             "datetimes) and every property the last value written with the TDMS type the statement prescribes.",
+        note="Rejected programs are outside the statement (acceptance rate measured, <95% = inconclusive); one type per "
+             "channel; trusts vf/parse.py for type codes."),
+    'C08': dict(
+        technique="property-based testing with an independent strict structural parser of the writer's output (validity "
+                  "predicate) and a byte-exact index-twin oracle",
+        text="The same generated write programs as C07; every emitted segment is re-parsed by code that shares nothing with "
+             "nptdms and must be self-consistent field by field; the index file must be the data file minus raw data with "
+             "the tag replaced.",
+        note="Trusts vf/parse.py's reading of the NI layout (index length field counts itself: 20 / 28)."),
+    'C10': dict(
+        technique="property-based testing (round trip through defragment): Hypothesis source files from the independent encoder, "
+                  "copy read back and compared with the model of the source; copy re-parsed by the strict parser",
+        text="Generated fragmented sources (many segments, inheritance plans, empty / untyped / property-only objects, raw "
+             "timestamps) are defragmented to paths and streams with and without index; the copy must carry the same objects, "
+             "property values, lengths and bit-identical raw values.",
+        note="Float-with-unit channels compared as floats; order not asserted; DAQmx sources excluded as the statement says."),
+    'C16': dict(
+        technique="exhaustive enumeration of all names up to length 4 (pairs up to 3+3 quick, 4+4 thorough) over {quote, slash, "
+                  "space, letter} + Hypothesis Unicode names; round-trip / injectivity / differential against an independent "
+                  "path encoder; end-to-end through TdmsWriter, the independent encoder and TdmsFile",
+        text="Complete for the stated bound (7.5k paths quick, 116k thorough), sampled for Unicode; end-to-end files with "
+             "deliberately confusable names must keep every channel under its own names with its own data.",
+        note="Trusts vf/model.py make_path (TDMS quoting rule); surrogates excluded."),
+})
+
 PENDING_REASON = "check not built yet in this session (planned in DESIGN.md section 4); not claimed until it runs"
 
 
